@@ -11,6 +11,7 @@ import (
 	"gitlab.com/yawning/obfs4.git/transports"
 
 	"verifsim/harness"
+	"verifsim/simnet"
 	"verifsim/ref/obfs4ref"
 	"verifsim/sim"
 )
@@ -68,7 +69,7 @@ type dialOutcome struct {
 
 func runC02(c *harness.Ctx) {
 	t := c.T
-	kind := t.Draw("kind", 7)
+	kind := t.Draw("kind", 8)
 	iat := 0
 	setBias(false)
 	steerPads(c, obfs4PadRanges...)
@@ -76,7 +77,7 @@ func runC02(c *harness.Ctx) {
 	rid := refIdentity(id)
 	cf, _ := transports.Get("obfs4").ClientFactory("")
 	ending := false
-	kinds := []string{"control", "client-wrong-identity", "impostor-server", "tampered-response", "concurrent-clients", "impostor-low-order", "low-order-identity-key"}
+	kinds := []string{"control", "client-wrong-identity", "impostor-server", "tampered-response", "concurrent-clients", "impostor-low-order", "low-order-identity-key", "server-key-after-failed-answers"}
 	c.Info["kind"] = kinds[kind]
 	c.Feature("kind-" + kinds[kind])
 	if kind == 2 || kind == 5 || kind == 6 {
@@ -110,6 +111,66 @@ func runC02(c *harness.Ctx) {
 	}
 
 	switch kind {
+	case 7:
+		// fresh ephemeral keys under faults: the answers of a few connections
+		// fail to go out (the client resets, or the write fails, somewhere
+		// inside the server's response); the Y of every answer the bridge starts
+		// to send - on those connections and on a clean one afterwards - differs
+		sf, err := obfs4Server(id)
+		if err != nil {
+			panic(err)
+		}
+		var firsts [][]byte
+		n := 1 + t.Draw("nfail", 3)
+		for i := 0; i <= n; i++ {
+			l := c.Net.NewLink(fmt.Sprintf("c%d", i), fmt.Sprintf("s%d", i))
+			configurePipe(c, l.BA, fmt.Sprintf("s2c%d", i))
+			l.BA.Lazy = false
+			var first []byte
+			l.B.OnWrite = func(b []byte) {
+				if len(first) < 32 {
+					first = append(first, b...)
+				}
+			}
+			clean := i == n
+			if !clean {
+				at := int64(t.Draw("failat", 4000))
+				kindF := []string{simnet.FaultWriteErr, simnet.FaultCutRST, simnet.FaultCutEOF}[t.Draw("failkind", 3)]
+				l.BA.AddFault(simnet.Fault{Kind: kindF, Offset: at})
+			}
+			srvDone, cliDone := false, false
+			c.S.Go(fmt.Sprintf("s%d/accept", i), func() {
+				conn, err := sf.WrapConn(l.B)
+				if err == nil {
+					conn.Close()
+				}
+				srvDone = true
+			})
+			c.S.Go(fmt.Sprintf("c%d/client", i), func() {
+				hs := refClientHandshake(c, l.A, rid, refClientOpts{PadLen: obfs4ref.ClientMinPad + t.Draw("cpad", 500)})
+				if clean && hs.End == nil && !ending {
+					c.Violate("C02/genuine-handshake-failed", "after %d connections whose answers failed to go out, a clean handshake with the same bridge failed: parse=%v read=%v", n, hs.ParseErr, hs.ReadErr)
+				}
+				l.A.Close()
+				cliDone = true
+			})
+			c.S.Run(func() bool { return srvDone && cliDone }, 3*time.Minute)
+			if len(first) >= 32 {
+				firsts = append(firsts, append([]byte(nil), first[:32]...))
+			}
+			if c.S.Violated() {
+				break
+			}
+		}
+		for i := range firsts {
+			for j := i + 1; j < len(firsts); j++ {
+				if bytes.Equal(firsts[i], firsts[j]) {
+					c.Violate("C02/ephemeral-key-reused", "the bridge put the same 32-byte representative (its ephemeral public key) on the wire in answers %d and %d; the earlier connection's answer had failed to go out", i, j)
+				}
+			}
+		}
+		c.S.Count("fault.server-answer-fails", int64(n))
+		c.Reached, c.Nontrivial = true, len(firsts) > 1
 	case 0, 4: // control / concurrent clients against one factory
 		sf, err := obfs4Server(id)
 		if err != nil {
